@@ -31,7 +31,7 @@ CMP_CALLS = {
 def _cmp_call(name):
     last = name.rsplit("::", 1)[-1]
     m = {"lt": "Lt", "le": "Le", "gt": "Gt", "ge": "Ge", "eq": "Eq", "ne": "Ne"}
-    if last in m and ("PartialOrd" in name or "PartialEq" in name):
+    if last in m and ("PartialOrd" in name or "PartialEq" in name or "core::cmp::impls::" in name):
         return m[last]
     return None
 
@@ -180,18 +180,24 @@ def _strip_ref(ty):
     return ty.strip()
 
 
-def _variant_names(body, s, x, vals, prog):
-    ty = _discr_type(body, s)
-    adt = None
-    if ty:
-        adt = mir.strip_generics(_strip_ref(ty).split("<")[0])
-    table = None
-    if adt in mir.ENUM_DISCR:
-        table = mir.ENUM_DISCR[adt]
-    elif prog is not None and adt in prog.adts and prog.adts[adt]["is_enum"]:
-        table = {i: v["name"] for i, v in enumerate(prog.adts[adt]["variants"])}
-    if table is None:
+def _discr_info(body, s):
+    """(adt path, {discr value: variant name}) of the place whose discriminant is switched on in block s"""
+    t = body.blocks[s]["term"]
+    d = t["d"]
+    pl = d.get("m") or d.get("c")
+    if not pl or pl["p"]:
         return None
+    for kind, bb, idx, st in body.defs().get(pl["l"], []):
+        if kind == "stmt" and st["rv"]["k"] == "discr" and "adt" in st["rv"]:
+            return mir.strip_generics(st["rv"]["adt"]), {int(v): n for v, n in st["rv"]["variants"]}
+    return None
+
+
+def _variant_names(body, s, x, vals, prog):
+    info = _discr_info(body, s)
+    if info is None:
+        return None
+    adt, table = info
     arms = body.switch_arm_values(s)
     ns = set()
     for v in vals:
